@@ -109,7 +109,7 @@ type scope struct {
 
 type allowEntry struct {
 	Site   string `json:"site"`   // key of the site
-	Kind   string `json:"kind"`   // "lemma" (harmless, justification names the argument) | "finding" (confirmed defect)
+	Kind   string `json:"kind"`   // "lemma" (harmless, justified) | "limit" (documented dependence, not driven) | "finding" (confirmed divergence)
 	Reason string `json:"reason"` // justification or finding id
 }
 
@@ -627,8 +627,8 @@ func main() {
 		if !byKey[a.Site] {
 			die("allow list entry %q names no site (the code moved: re-justify it)", a.Site)
 		}
-		if a.Kind != "lemma" && a.Kind != "finding" {
-			die("allow list entry %q: kind must be lemma or finding", a.Site)
+		if a.Kind != "lemma" && a.Kind != "finding" && a.Kind != "limit" {
+			die("allow list entry %q: kind must be lemma, limit or finding", a.Site)
 		}
 	}
 	// ---- output ----
@@ -653,6 +653,8 @@ func main() {
 		k := "AlLemma"
 		if a.Kind == "finding" {
 			k = "AlFinding"
+		} else if a.Kind == "limit" {
+			k = "AlLimit"
 		}
 		fmt.Fprintf(&o, "  (%s, %s, %s)%s\n", q(a.Site), k, q(a.Reason), sep)
 	}
